@@ -244,6 +244,12 @@ func makeAccumulatorFunc(expr parser.ItemType) (newAccumulatorFunc, error) {
 				AddFunc: func(v float64) {
 					hasValue = true
 					count++
+					if count == 1 {
+						// The first sample only initialises the mean, as in the Prometheus
+						// engine: running it through the update turns +/-Inf into NaN.
+						mean = v
+						return
+					}
 					delta := v - (mean + cMean)
 					mean, cMean = function.KahanSumInc(delta/count, mean, cMean)
 					aux, cAux = function.KahanSumInc(delta*(v-(mean+cMean)), aux, cAux)
@@ -270,6 +276,12 @@ func makeAccumulatorFunc(expr parser.ItemType) (newAccumulatorFunc, error) {
 				AddFunc: func(v float64) {
 					hasValue = true
 					count++
+					if count == 1 {
+						// The first sample only initialises the mean, as in the Prometheus
+						// engine: running it through the update turns +/-Inf into NaN.
+						mean = v
+						return
+					}
 					delta := v - (mean + cMean)
 					mean, cMean = function.KahanSumInc(delta/count, mean, cMean)
 					aux, cAux = function.KahanSumInc(delta*(v-(mean+cMean)), aux, cAux)
